@@ -27,3 +27,9 @@ for d in (1, 2, 3):
 for cfg, dd in (('default', {}), ('ndebug', {'NDEBUG': 1}), ('assert_disable', {'BOOST_MULTI_ASSERT_DISABLE': 1})):
     U('C20', 'C01_step.cpp', name='C20_%s_C01_step_DIM2' % cfg, defines=dict(DIM=2, NB=3, SB=4, **dd), unwind=6, timeout=900)
     U('C20', 'C02_iter.cpp', name='C20_%s_C02_iter_DIM2' % cfg, defines=dict(DIM=2, NB=3, SB=4, **dd), unwind=6, timeout=900)
+
+# ---- C05 assignment through views (storage-image oracle)
+U('C05', 'C05_assign.cpp', defines=dict(DIM=1, NB=3, SB=4, MEMSZ2=24), unwind=6, timeout=900)
+U('C05', 'C05_assign.cpp', defines=dict(DIM=2, NB=2, SB=3, MEMSZ2=16), unwind=6, timeout=900)
+U('C05', 'C05_assign.cpp', defines=dict(DIM=2, NB=3, SB=4, MEMSZ2=32), unwind=11, timeout=3600, tier='thorough', backend='kissat')
+U('C05', 'C05_assign.cpp', defines=dict(DIM=3, NB=2, SB=3, MEMSZ2=32), unwind=10, timeout=3600, tier='thorough', backend='kissat')
